@@ -101,10 +101,46 @@ def same(a, b):
     return bool(np.max(np.abs(a - b)) <= 1e-9 * scale)
 
 
+def replay_c08(info, ce):
+    """History: warm the caches flagged in the model, run the generator call(s), read velocity/displacement, check the rule."""
+    import eqsig
+    flags = {k: bool(v) for k, v in (ce or {}).get('inputs', {}).items() if k.startswith('cached_')} or {k: True for k in WARM}
+    a = _record(64, 2)
+    dt = 0.01
+    o = eqsig.AccSignal(a, dt)
+    history = ['AccSignal(values[64], 0.01)']
+    for fl, rs in WARM.items():
+        if flags.get(fl, False):
+            for r in rs:
+                getattr(o, r)
+                history.append('read ' + r)
+    how = info['how']
+    if how in ('generate-rect', 'generate-rect-then-trap'):
+        o.generate_displacement_and_velocity_series(trap=False)
+        history.append('generate_displacement_and_velocity_series(trap=False)')
+    if how in ('generate-trap', 'generate-rect-then-trap'):
+        o.generate_displacement_and_velocity_series(trap=True)
+        history.append('generate_displacement_and_velocity_series(trap=True)')
+    v, d = np.asarray(o.velocity), np.asarray(o.displacement)
+    history.append('read velocity, displacement')
+    if how == 'generate-rect':
+        want_dv = dt * a[:-1]
+        want_dd = dt * v[1:]
+    else:
+        want_dv = dt * (a[1:] + a[:-1]) / 2
+        want_dd = dt * (v[1:] + v[:-1]) / 2
+    bad = not (np.allclose(np.diff(v), want_dv, rtol=1e-9, atol=1e-12) and np.allclose(np.diff(d), want_dd, rtol=1e-9, atol=1e-12)
+               and v[0] == 0 and d[0] == 0 and len(v) == len(a) == len(d))
+    return dict(status='confirmed' if bad else 'not-reproduced', observed={'history': history, 'max_increment_error_v': float(np.max(np.abs(np.diff(v) - want_dv)))},
+                detail='after the history %s the series %s the %s increments' % (history, 'do NOT have' if bad else 'have', 'rectangle' if how == 'generate-rect' else 'trapezoid'))
+
+
 def replay(info, ce):
     import warnings
     import eqsig
     warnings.simplefilter('ignore')
+    if info.get('kind') == 'c08-series':
+        return replay_c08(info, ce)
     cls = eqsig.AccSignal if info['cls'] == 'AccSignal' else eqsig.Signal
     flags = {k: bool(v) for k, v in (ce or {}).get('inputs', {}).items() if k.startswith('cached_')}
     if not flags:
@@ -140,6 +176,19 @@ def replay(info, ce):
             err = type(e).__name__
         history.append('apply ' + op + (' -> raised ' + err if err else ''))
     clause = info.get('clause', '')
+    if clause.startswith('time-'):
+        o3 = cls(_record(), 0.01)
+        table = concrete_ops()
+        if op in table:
+            try:
+                table[op](o3)
+            except Exception:
+                pass
+        want = np.arange(o3.npts) * o3.dt
+        got = np.asarray(o3.time)
+        bad = got.shape != want.shape or not np.allclose(got, want, rtol=1e-12, atol=1e-12)
+        return dict(status='confirmed' if bad else 'not-reproduced', observed={'time_head': got[:4].tolist(), 'npts': int(o3.npts)},
+                    detail='after %s: time %s dt*[0..npts-1]' % (op, 'DIFFERS from' if bad else 'equals'))
     if 'not-shared-with-argument' in clause or 'not-written' in clause or 'values-is-numeric-array' in clause or 'npts-equals' in clause:
         # ownership clauses: replay with an explicit caller array
         o2 = cls(_record(), 0.01)
